@@ -56,7 +56,8 @@ HReadAtRes(h, n, off) == IF n = 0 THEN <<"ok", <<>>>>
                          ELSE IF ~HLive(h) THEN <<"evicted", <<>>>>
                          ELSE IF off >= Len(B(h)) THEN <<"eof", <<>>>>
                          ELSE <<IF off + n > Len(B(h)) THEN "eof" ELSE "ok", Slice(B(h), off + 1, Min(off + n, Len(B(h))))>>
-Put(s, p, off) == [i \in 1..Max(Len(s), off + Len(p)) |->
+Put(s, p, off) == IF Len(p) = 0 THEN s ELSE    \* a zero-length write never extends the file (like pwrite)
+                  [i \in 1..Max(Len(s), off + Len(p)) |->
                      IF i > off /\ i <= off + Len(p) THEN p[i - off] ELSE IF i <= Len(s) THEN s[i] ELSE 0]
 HWriteRes(h, p) == IF HLive(h) THEN <<"ok", Len(p)>> ELSE <<"evicted", 0>>
 HWriteAt(h, p, off, adv) ==
